@@ -110,7 +110,10 @@ def extra(report, env):
         fails.append({'formula': 'va-vb', 'bind': ['1900-01-05', '100'], 'detail': 'a date before 1900 must be #NUM!, got %r' % (r,)})
     # arrays: element-wise with scalars and equal lengths, #VALUE! on a length mismatch
     for text, exp in (('{1,2,3}+1', [2, 3, 4]), ('1+{1,2,3}', [2, 3, 4]), ('{1,2,3}*{4,5,6}', [4, 10, 18]), ('10-{1,2}', [9, 8]), ('{8,6}/2', [4, 3]),
-                      ('{1,2,3}+{1,2}', '#VALUE!'), ('{1,2}-{1,2,3}', '#VALUE!'), ('{{1,2};{3,4}}*2', None)):
+                      ('{1,2,3}+{1,2}', '#VALUE!'), ('{1,2}-{1,2,3}', '#VALUE!'), ('{{1,2};{3,4}}*2', None),
+                      # a text scalar is ONE value, spelled with however many characters: it goes with every element
+                      ('"12"+{1;2}', [13, 14]), ('{1;2;4}*"3"', [3, 6, 12]), ('{10,20}-"5"', [5, 15]), ('"100"/{1,2,4}', [100, 50, 25]), ('{1,2}+"1.5"', [2.5, 3.5]),
+                      ('TRUE+{1,2}', [2, 3]), ('{1,2,3}*FALSE', [0, 0, 0])):
         cases += 1
         r = p.parse(text)
         ok = (r['error'] == exp) if isinstance(exp, str) else (exp is None or r['result'] == exp)
@@ -129,7 +132,7 @@ def extra(report, env):
     r = p.parse('{1,2}+{5}')
     known_e2e(report, 'C06-one-element-array-broadcast', r['error'] != '#VALUE!', '{1,2}+{5}',
               'a one-element array operand broadcasts like a scalar: {1,2}+{5} = %r instead of #VALUE!' % (r['result'],))
-    bounded(report, 'C06.pairs', 'all ordered pairs from a 19-value typed pool x (+ - * / &), each evaluated twice over the same operand objects (operands compared with pristine copies), date +- n for 15 cases, 8 array forms, 5 formulas using one array object twice', cases, fails)
+    bounded(report, 'C06.pairs', 'all ordered pairs from a 19-value typed pool x (+ - * / &), each evaluated twice over the same operand objects (operands compared with pristine copies), date +- n for 15 cases, 15 array forms (text and logical scalars against arrays), 5 formulas using one array object twice', cases, fails)
 
 
 def replay(rp):
